@@ -4,6 +4,7 @@ import (
 	"fmt"
 	"go/token"
 	"go/types"
+	"sort"
 	"strings"
 
 	"golang.org/x/tools/go/ssa"
@@ -167,7 +168,25 @@ func lockTerm(st *State, key string) string {
 	if v, ok := st.locks[key]; ok {
 		return v
 	}
-	return "0"
+	// the owner may be denoted by another term (e.g. a ghost function ownerPool(c)): compare it with the owners of the known
+	// locks of the same field instead of failing syntactically
+	i := strings.Index(key, "@")
+	if i < 0 {
+		return "0"
+	}
+	prefix, owner := key[:i+1], key[i+1:]
+	var ks []string
+	for k := range st.locks {
+		if strings.HasPrefix(k, prefix) {
+			ks = append(ks, k)
+		}
+	}
+	sort.Strings(ks)
+	res := "0"
+	for _, k := range ks {
+		res = "(ite (= " + owner + " " + k[len(prefix):] + ") " + st.locks[k] + " " + res + ")"
+	}
+	return res
 }
 
 func (fv *FnVerifier) lockKeyOfAddr(a *Addr) string {
